@@ -12,7 +12,7 @@ import z3
 from sdpcap.capture import Captured, SymProgram, capture, capture_call, extract
 from sdpcap.embed import coord_values, linear_constraints, objective_term, prove, rv, z3_affine
 from sdpcap.task import SdpTask
-from symnp.core import And, Or, SymBool, lift
+from symnp.core import And, Or, SymBool, SymError, lift
 from symnp.harness import Obligation, eq, jsonable
 from props.common import Task, prod
 from props.c10 import tr
@@ -202,7 +202,7 @@ def ob_classical_dispatch(A, B, X, Y):
     def call(i):
         t = i["t"]
         symbolic = any(not isinstance(v, (int, float, np.floating, F)) for v in t)
-        if symbolic or N <= 1000:
+        if symbolic:
             seen = []
 
             def stub(k, nbo, nbi, pm, nao, nai):
@@ -217,6 +217,10 @@ def ob_classical_dispatch(A, B, X, Y):
                 val = NonlocalGame(np.full((X, Y), 1.0 / (X * Y)), np.ones((A, B, X, Y))).classical_value()
             finally:
                 NonlocalGame.process_iteration = old
+            if not seen:
+                # the implementation does not evaluate strategies through process_iteration (e.g. a vectorised rewrite): the
+                # uninterpreted-dispatch model says nothing about it - inconclusive, the replay below still runs the real code
+                raise SymError("classical_value did not call process_iteration: the dispatch model does not apply to this implementation")
             return val.force() if isinstance(val, _LazyMax) else val
         # numeric replay through the public API with nothing stubbed: the game in which the enumerated player's strategy
         # number argmax(t) is the unique perfect strategy; the real value is 1 iff that strategy was evaluated
@@ -240,8 +244,18 @@ def ob_classical_dispatch(A, B, X, Y):
             return abs(float(res) - max(float(v) for v in t)) < 1e-9
         return And(*[lift(res) >= v for v in t]) & Or(*[lift(res).eq_solver(v) for v in t])
     mod = "toqito.nonlocal_games.nonlocal_game"
+
+    def witness():
+        # real games (nothing stubbed, the code's own pool) whose unique perfect strategy of the enumerated player is the first,
+        # the last and a middle index; also what is left when the implementation does not dispatch through process_iteration
+        out = []
+        for k in (0, N - 1, N // 2 + 1):
+            t = np.zeros(N)
+            t[k] = 1.0
+            out.append({"t": t})
+        return out
     return Obligation("classical_value.large_game_enumeration_reaches_every_strategy_of_the_enumerated_player", cfg, build, call, lambda i: None,
-                      post=post, objzeros=(NG,), extra_patch={mod: {"multiprocessing": _InlineMP, "max": _solver_max}},
+                      post=post, objzeros=(NG,), extra_patch={mod: {"multiprocessing": _InlineMP, "max": _solver_max}}, witness=witness,
                       neg_control=False, tv=True, max_paths=8, weight=max(30, N // 20), dtype_variants=False,
                       functions=["NonlocalGame.classical_value (dispatch of strategy indices; process_iteration as uninterpreted i -> t_i; "
                                  "multiprocessing.Pool as in-process stub)"])
